@@ -171,6 +171,21 @@ class C01(Check):
                 cases.append(Case("c%d" % n, "", "|".join(["new 0", "%s 0 %s" % (mode, hx(wtxt.encode("latin-1")))]),
                                   {"family": "text", "name": mode, "expr": wtxt}))
         # END r06
+        # (c2) expressions the PARSER evaluates (the file name of `include`, the path of `import`): in a TRUSTED context (the command
+        #      line interpreter's) an expression that raises a run-time error, yields null, or names no file must reject the statement
+        #      (finding C01.include_expr_runtime_error_escapes, fixed in 8b0461e: `include str(1/0);` aborted bloc with an uncaught
+        #      RuntimeError); in an untrusted one the statement is refused before anything is evaluated.
+        raising = ['str(1/0)', 'str(1 % 0)', 'chr(999)', 'str(int("x"))', '"a" + str(1/0)', 'substr("abc", 1/0)', 'str(hash("x", 0))',
+                   'str()', 'lower(str())', '"/nonexistent/file.bloc"', '""', 'str(tab(1,1).at(5))', 'str(tup(1,2)@1 / 0)', 'b64enc(raw(300))']
+        for ex in raising:
+            for stmt in ("include %s;", "import %s;", "import (%s);", "if true then include %s; end if;", "x = 1; include %s; print x;"):
+                for trust in ("t", ""):
+                    for mode in ("prog", "step"):
+                        n += 1
+                        wtxt = stmt % ex
+                        cases.append(Case("c%d" % n, "", "|".join([("new 0 " + trust).strip(), "%s 0 %s" % (mode, hx(wtxt.encode("latin-1"))),
+                                                                   "%s 0 %s" % (mode, hx(b'print "alive";'))]),
+                                          {"family": "parse-time-eval", "name": mode + ("/trusted" if trust else "/untrusted"), "expr": wtxt}))
         # (d) sessions: several texts in ONE context, some rejected, then calls of every declared signature — the state a rejected
         #     text leaves behind (function table, backups, symbols) must never make a LATER valid text crash. Exhaustive over all
         #     sequences of 3 declarations (valid | body with a syntax error | body with an undefined symbol | unterminated) of the
